@@ -401,10 +401,72 @@ def run(ctx):
             ctx.sample({'cls': case['cls'], 'init': case['init'][:48], 'steps': case['steps'][:5]})
     for i in range(ctx.scale(3000, 40000)):
         ctx.run_case(order_case, gen_order(ctx))
+    for i in range(ctx.scale(4000, 60000)):
+        ctx.run_case(deferred_case, gen_deferred(ctx))
     bitstring.options.lsb0 = False
 
 
+# ---- iterators that are consumed after the object has changed --------------------------------------------------------
+def gen_deferred(ctx):
+    rng = ctx.rng
+    L = rng.choice([9, 16, 17, 24, 40, 65])
+    m = util.content(rng, L)
+    pat = rng.choice(['1', '0', '10', '11', m[3:6], m[-4:]])
+    edge = lambda: rng.choice([None, None, 0, 1, 3, 8, L - 1, L, -1, -3])  # noqa: E731
+    mut = rng.choice([['append', rb(rng, rng.choice([1, 3, 8]))], ['prepend', rb(rng, rng.choice([1, 3, 8]))], ['insert', rb(rng, 2), rng.randrange(L)],
+                      ['del', rng.randrange(L - 3), rng.choice([1, 2, 3])], ['invert'], ['overwrite', rb(rng, 3), rng.randrange(L - 3)], ['reverse']])
+    return {'deferred': rng.choice(['findall', 'findall', 'cut']), 'cls': rng.choice(util.MUTABLE), 'init': m, 'pat': pat, 'start': edge(), 'end': edge(),
+            'count': rng.choice([None, None, 2]), 'ba': rng.choice([False, False, True]), 'mut': mut, 'consume_first': 0}
+
+
+def deferred_case(ctx, c):
+    """g = s.findall(...) / s.cut(...) / s.split(...); the object is changed in place; only then is g consumed.  Whatever the library
+    does in that situation in msb0 mode on the reversed operands, reversed back, is what it has to do in lsb0 mode."""
+    cls = CLASSES[c['cls']]
+
+    def run(lsb0):
+        rv = (lambda b: b[::-1]) if lsb0 else (lambda b: b)          # lsb0 runs on the content itself, msb0 on the mirror image
+        with util.options(lsb0=lsb0, bytealigned=False):
+            s = mk(cls, c['init'] if lsb0 else c['init'][::-1])
+            p = mk(Bits, c['pat'] if lsb0 else c['pat'][::-1])
+            if c['deferred'] == 'findall':
+                g = s.findall(p, c['start'], c['end'], c['count'], c['ba'])
+            elif c['deferred'] == 'cut':
+                g = s.cut(3, c['start'], c['end'], c['count'])
+            else:
+                g = s.split(p, c['start'], c['end'], c['count'], c['ba'])
+            head = [next(g, 'end') for _ in range(c['consume_first'])]
+            mu = c['mut']
+            arg = mk(Bits, mu[1] if lsb0 else mu[1][::-1]) if len(mu) > 1 and isinstance(mu[1], str) else None
+            if mu[0] == 'append':
+                s.append(arg)
+            elif mu[0] == 'prepend':
+                s.prepend(arg)
+            elif mu[0] == 'insert':
+                s.insert(arg, mu[2])
+            elif mu[0] == 'overwrite':
+                s.overwrite(arg, mu[2])
+            elif mu[0] == 'del':
+                del s[mu[1]:mu[1] + mu[2]]
+            elif mu[0] == 'invert':
+                s.invert()
+            else:
+                s.reverse()
+            rest = list(g)
+            norm = lambda x: (rv(B(x)) if hasattr(x, 'bin') or hasattr(x, '_bitstore') else x)  # noqa: E731
+            return [norm(x) for x in head + rest], rv(B(s))
+    a, b = call(lambda: run(True)), call(lambda: run(False))
+    ctx.op('deferred:' + c['deferred'], 'ok' if a[0] == 'ok' else type(a[1]).__name__)
+    same = (a[0] == b[0] == 'ok' and a[1] == b[1]) or (a[0] == b[0] == 'exc' and type(a[1]) is type(b[1]))
+    if same:
+        ctx.ok(('deferred', c['deferred'], c['mut'][0], c['consume_first'], a[0]), True)
+    else:
+        ctx.mismatch(f'C12|lsb0|{c["deferred"]}-consumed-after-{c["mut"][0]}|window|differs-from-mirrored-msb0', c, f'lsb0 {a[1]!s:.90} mirrored msb0 {b[1]!s:.90}')
+
+
 def replay(ctx, case):
+    if 'deferred' in case:
+        return ctx.run_case(deferred_case, case)
     if 'tokens' in case:
         ctx.run_case(order_case, case)
     else:
